@@ -230,17 +230,23 @@ Definition pr_step (s : list (N * (N * bool))) (e : event) : option (list (N * (
   end.
 Definition c07_pubrec_after_store (es : list event) : bool := scan pr_step [] es.
 
-(* C07 exactly-once, in two clauses.  A handshake of id starts when a PUBLISH id
-   is saved in the incoming store and its message is RELEASED when a closure of a
-   PUBREL-publish deletes it again (the only deletions from the incoming store).
+(* C07 exactly-once.  A handshake of id starts when a PUBLISH id is saved in the
+   incoming store.  A backend Publish issued for PUBREL id is ACKNOWLEDGED when
+   the backend invokes its closure; the closure RELEASES the handshake by
+   deleting the stored PUBLISH (the only deletions from the incoming store),
+   and only then is PUBCOMP queued.
 
    c07_no_publish_after_release: once released, no further backend Publish is
-   issued for id until a new PUBLISH id is saved — whatever the interleaving of
-   retransmissions, failures and resumptions.
+   issued for id until a new PUBLISH id is saved.
 
-   c07_single_release: a handshake is released at most once, i.e. at most one of
-   its backend Publishes is acknowledged.  (This one needs the backend to
-   acknowledge promptly: see C07_single_release_refuted / _partial.) *)
+   c07_single_ack: at most one backend Publish of a handshake is acknowledged
+   (an acknowledgement whose release could not be recorded because the session
+   failed does not close the handshake).
+
+   Both need the backend to acknowledge PROMPTLY (prompt_acks below): if a
+   PUBREL for id is processed again while an earlier hand-over of the same
+   handshake is still unacknowledged and that one is acknowledged later, the
+   message is handed on twice (C07_*_refuted; open known finding). *)
 Record q2_st := Q2St { q2_last : list (N * packet); q2_released : list N }.
 Definition q2_step (s : q2_st) (e : event) : option q2_st :=
   match e with
@@ -258,29 +264,56 @@ Definition q2_step (s : q2_st) (e : event) : option q2_st :=
   end.
 Definition c07_no_publish_after_release (es : list event) : bool := scan q2_step (Q2St [] []) es.
 
-Record q3_st := Q3St { q3_stored : list N; q3_released : list N }.
+Record q3_st := Q3St { q3_last : list (N * packet); q3_rel : list (N * N); q3_acked : list N; q3_done : list N }.
 Definition q3_step (s : q3_st) (e : event) : option q3_st :=
   match e with
-  | ESave _ Incoming (Publish _ _ id) true =>
-      Some (Q3St (if nmem id (q3_stored s) then q3_stored s else id :: q3_stored s) (nremove1 id (q3_released s)))
-  | EDelete _ Incoming id true =>
-      if nmem id (q3_released s) then None                 (* a second acknowledged publish of the same handshake *)
-      else Some (Q3St (q3_stored s) (id :: q3_released s))
+  | ENewConn => Some (Q3St [] (q3_rel s) (q3_acked s) (q3_done s))
+  | ERx g p => Some (Q3St (aput (q3_last s) g p) (q3_rel s) (q3_acked s) (q3_done s))
+  | ESave _ Incoming (Publish _ _ id) true => Some (Q3St (q3_last s) (q3_rel s) (nremove1 id (q3_acked s)) (q3_done s))
+  | EDelete _ Incoming id false =>                        (* the release could not be recorded: the handshake stays open *)
+      Some (Q3St (q3_last s) (q3_rel s) (nremove1 id (q3_acked s)) (q3_done s))
+  | EPub g _ (Some k) =>
+      match aget (q3_last s) g with
+      | Some (Pubrel id) => Some (Q3St (q3_last s) ((k, id) :: q3_rel s) (q3_acked s) (q3_done s))
+      | _ => Some s
+      end
+  | EAckCall k _ =>
+      if nmem k (q3_done s) then Some s else
+      match aget (q3_rel s) k with
+      | Some id =>
+          if nmem id (q3_acked s) then None              (* a second acknowledged publish of the same handshake *)
+          else Some (Q3St (q3_last s) (q3_rel s) (id :: q3_acked s) (k :: q3_done s))
+      | None => Some s
+      end
   | _ => Some s
   end.
-Definition c07_single_release (es : list event) : bool := scan q3_step (Q3St [] []) es.
+Definition c07_single_ack (es : list event) : bool := scan q3_step (Q3St [] [] [] []) es.
 
-(* the backend discipline under which c07_single_release is provable: every closure is
-   invoked, if at all, inside the backend call that received it *)
-Record sy_st := SySt { sy_open : list (N * N) }.            (* goroutine inside a backend call -> its closure *)
-Definition sy_step (s : sy_st) (e : event) : option sy_st :=
+(* the backend discipline: a hand-over that is still unacknowledged when the same id
+   is looked up again for another PUBREL is never acknowledged afterwards
+   (acknowledge before the next PUBREL for that id is processed, or never).
+   MemoryBackend acknowledges inside Publish and satisfies it trivially. *)
+Record pk_st := PkSt {
+  pk_last : list (N * packet);
+  pk_open : list (N * N);          (* closure k of a PUBREL-publish -> id, not yet returned *)
+  pk_over : list N }.              (* closures overtaken by a later lookup of their id *)
+Definition pk_step (s : pk_st) (e : event) : option pk_st :=
   match e with
-  | ESub g _ k | EUnsub g _ k | EPub g _ (Some k) => Some (SySt (aput (sy_open s) g k))
-  | ESubRet g _ | EUnsubRet g _ | EPubRet g _ => Some (SySt (adel (sy_open s) g))
-  | EAckCall k g => match aget (sy_open s) g with Some k' => if k =? k' then Some s else None | None => None end
+  | ENewConn => Some (PkSt [] (pk_open s) (pk_over s))
+  | ERx g p => Some (PkSt (aput (pk_last s) g p) (pk_open s) (pk_over s))
+  | EPub g _ (Some k) =>
+      match aget (pk_last s) g with
+      | Some (Pubrel id) => Some (PkSt (pk_last s) ((k, id) :: pk_open s) (pk_over s))
+      | _ => Some s
+      end
+  | ELookup _ Incoming id _ =>
+      Some (PkSt (pk_last s) (pk_open s)
+                 (map fst (filter (fun e => snd e =? id) (pk_open s)) ++ pk_over s))
+  | EAckCall k _ => if nmem k (pk_over s) then None else Some s
+  | EAckRet k _ => Some (PkSt (pk_last s) (adel (pk_open s) k) (pk_over s))
   | _ => Some s
   end.
-Definition sync_acks (es : list event) : bool := scan sy_step (SySt []) es.
+Definition prompt_acks (es : list event) : bool := scan pk_step (PkSt [] [] []) es.
 
 (* C07_pubrel_answered: at quiescence every PUBREL received on the live
    connection has had its PUBCOMP sent, unless the backend still withholds the
